@@ -20,6 +20,10 @@ TRUSTED = [
     "Symbol identity = (name, assumptions0); sp.lambdify for the numeric clause",
     "symbol encoding 'name|assumptions' (first '|' separates): new names must not contain '|' (wf_map)",
     "domain restriction in_domain: no Indexed left in expression / kinematic variables (checked per case by the model's flag)",
+    "SymPy's automatic evaluation is not confluent: `expression` of the renamed model (unfold, then substitute the renamed "
+    "amplitudes) and expression.xreplace(S) can be structurally different forms of one expression after a merge that makes "
+    "terms cancel; the five dictionaries are always compared structurally, the derived expression falls back to equality of "
+    "values at random points (bridge/lib_C17.same_value; counted in the evidence notes)",
     "object identity / aliasing cannot be expressed in the purely functional Rename.v: that the renamed model shares no mutable "
     "container with the original and that writes to parameter_defaults (by symbol, name, index) do not leak either way is "
     "checked by the harnesses only (bridge/lib_C17.independence), for non-empty maps (the empty map returns self by design)",
@@ -70,6 +74,10 @@ def run(chk):
     fails += _report(chk, sdoc, sout, "search_C17.py",
                      "property harness on the implementation: attributes vs xreplace of the originals by the name map, "
                      "orderings, assumptions, untouched symbols, original digest, closure, numeric intensity at carried-over values")
+    for name, d in (("corr_C17.py", cdoc), ("search_C17.py", sdoc)):
+        if d is not None and d.get("value_fallbacks"):
+            chk.notes.append(f"{name}: {d['value_fallbacks']} comparison(s) of the derived `expression` decided by value "
+                             "(SymPy's automatic evaluation gave two structurally different forms of one expression)")
     if cdoc is not None:
         chk.notes.append(f"correspondence: {cdoc['evaluations']} rename steps, coq {cdoc.get('coq_seconds')} s, "
                          f"{cdoc.get('n_failures', 0)} disagreements")
